@@ -209,7 +209,7 @@ func init() {
 	register(&Check{
 		ID:    "C11",
 		Level: "model_checking",
-		Rule: "phase 1 as C10; phase 2: in every role state every role-update and accept transaction with new holder in U + {\"\", garbage, wrong-prefix, bad-checksum} by every submitter, " +
+		Rule: "phase 1 as C10; phase 2: in every role state every role-update and accept transaction with new holder in U + {\"\", garbage, wrong-prefix, validator-operator prefix, bad-checksum} by every submitter, " +
 			"stepped in lockstep with the lifecycle automaton, successors must stay inside the enumerated closed set; plus every unrelated transaction type as a probe (roles must not move); " +
 			"distinct_nontrivial counts distinct (role state, transaction, outcome) triples",
 		Assumptions: []string{"an invalid new *owner* string is EITHER (the statement restricts only the other three roles to valid addresses)"},
@@ -320,7 +320,11 @@ func c11Invalid() []string {
 	} else {
 		bad[len(bad)-1] = 'q'
 	}
-	return []string{"", "garbage", wrong, string(bad)}
+	valoper, err := sdk.Bech32ifyAddressBytes(Bech32Prefix+"valoper", Accts[2].Addr) // prefix merely *starts with* the account prefix
+	if err != nil {
+		panic(err)
+	}
+	return []string{"", "garbage", wrong, string(bad), valoper}
 }
 
 // unrelatedTxs: one transaction of every non-role kind (valid parameters).
